@@ -312,15 +312,15 @@ impl BufRead for BurstReader {
     }
 }
 
-struct PipeRun {
-    bytes: Vec<u8>,
-    writes: usize,
-    panicked: Option<String>,
-    hung: bool,
-    compiled: bool,
+pub struct PipeRun {
+    pub bytes: Vec<u8>,
+    pub writes: usize,
+    pub panicked: Option<String>,
+    pub hung: bool,
+    pub compiled: bool,
 }
 
-fn run_pipeline(query: &str, input: &[u8], size: Option<(u16, u16)>, is_tty: bool, seed: u64, density: usize, pauses: Vec<(usize, u64)>) -> PipeRun {
+pub fn run_pipeline(query: &str, input: &[u8], size: Option<(u16, u16)>, is_tty: bool, seed: u64, density: usize, pauses: Vec<(usize, u64)>) -> PipeRun {
     run_pipeline_mode(query, input, OutputMode::Legacy, size, is_tty, seed, density, pauses)
 }
 
@@ -372,7 +372,7 @@ fn run_pipeline_mode(query: &str, input: &[u8], mode: OutputMode, size: Option<(
 }
 
 /// split the renderer's bytes into frames at the reset sequences
-fn split_frames(text: &str) -> Vec<String> {
+pub fn split_frames(text: &str) -> Vec<String> {
     let unit = "\x1b[2K\x1b[1A";
     let mut frames = vec![];
     let mut rest = text;
@@ -477,7 +477,7 @@ fn same_cells(tty: &str, plain: &str) -> bool {
 
 /// does a legacy-mode frame drawn on a `w`×`h` terminal show the table `plain_text` (what a
 /// non-terminal run prints), up to padding / ellipsis, clipped to h−1 lines?  None = yes.
-fn frame_vs_plain(frame: &str, plain_text: &str, w: u16, h: u16, ordered: bool) -> Option<String> {
+pub fn frame_vs_plain(frame: &str, plain_text: &str, w: u16, h: u16, ordered: bool) -> Option<String> {
     let tty_lines: Vec<&str> = frame.strip_suffix('\n').unwrap_or(frame).split('\n').collect();
     let plain_lines: Vec<&str> = plain_text.strip_suffix('\n').unwrap_or(plain_text).split('\n').collect();
     let want_n = plain_lines.len().min((h as usize) - 1);
